@@ -219,6 +219,15 @@ func loadEngine(repo string) (*Engine, error) {
 			e.targets[key] = &Target{Key: key, spec: fs, pkg: e.pkgByName(fs.Pkg)}
 			continue
 		}
+		if i := strings.Index(key, "@"); i >= 0 {
+			// case contract: same function, verified separately under its own precondition
+			base, ok := e.targets[key[:i]]
+			if !ok {
+				return nil, fmt.Errorf("%s:%d: case contract %s does not match any function", fs.File, fs.Line, key)
+			}
+			e.targets[key] = &Target{Key: key, pkg: base.pkg, decl: base.decl, lit: base.lit, sig: base.sig, spec: fs}
+			continue
+		}
 		if t, ok := e.targets[key]; ok {
 			t.spec = fs
 		} else if !e.isInterfaceContract(key) {
@@ -345,7 +354,7 @@ func (e *Engine) newCtx(t *Target) *FnCtx {
 	c := &FnCtx{eng: e, w: e.w, pkg: t.pkg, info: t.pkg.TypesInfo, fname: t.Key, spec: t.spec,
 		declared: map[string]bool{}, counts: map[string]int{}, paramVals: map[string]Val{}, paramObjs: map[string]types.Object{},
 		unmodelled: map[string]bool{}, trusted: map[string]bool{}, strLits: map[string]string{}, factCache: map[string]bool{},
-		ghost: map[string]Val{}, ghostFns: map[string]string{}, axiomsDone: map[string]bool{}, deps: map[string]bool{}, callHeapKeys: map[string]bool{}, sig: t.sig}
+		ghost: map[string]Val{}, ghostFns: map[string]string{}, boxed: map[types.Object]bool{}, axiomsDone: map[string]bool{}, deps: map[string]bool{}, callHeapKeys: map[string]bool{}, sig: t.sig}
 	if t.decl != nil {
 		c.decl = t.decl
 	} else if t.lit != nil {
@@ -492,6 +501,7 @@ func (e *Engine) verifyFunc(t *Target) (res *FuncResult) {
 	c.sigStack = append(c.sigStack, sig)
 	var rets []retExit
 	c.retStack = append(c.retStack, &rets)
+	c.findBoxed(body, c.info)
 	end := c.execBlock(st, body.List)
 	var outs []*State
 	if end != nil {
@@ -684,4 +694,42 @@ func (c *FnCtx) ghostAssignFinal(st *State, cl *Clause, sig *types.Signature, fs
 	c.declared[nw] = true
 	c.emit(fmt.Sprintf("(define-fun %s ((%s Int)) Int %s)", nw, bv, body))
 	st.heaps[key] = nw
+}
+
+// findBoxed marks local variables whose address is taken (&x, or a pointer-receiver method
+// called on an addressable struct variable): they are modelled in the pointer heap.
+func (c *FnCtx) findBoxed(body ast.Node, info *types.Info) {
+	ast.Inspect(body, func(n ast.Node) bool {
+		switch x := n.(type) {
+		case *ast.UnaryExpr:
+			if x.Op == token.AND {
+				if id, ok := unparen(x.X).(*ast.Ident); ok {
+					if o, ok := info.ObjectOf(id).(*types.Var); ok && o.Parent() != o.Pkg().Scope() {
+						c.boxed[o] = true
+					}
+				}
+			}
+		case *ast.CallExpr:
+			if se, ok := unparen(x.Fun).(*ast.SelectorExpr); ok {
+				if sel, ok := info.Selections[se]; ok && sel.Kind() == types.MethodVal {
+					if fn, ok := sel.Obj().(*types.Func); ok {
+						sig := fn.Type().(*types.Signature)
+						if sig.Recv() != nil {
+							_, wantPtr := sig.Recv().Type().Underlying().(*types.Pointer)
+							if id, ok := unparen(se.X).(*ast.Ident); ok && wantPtr {
+								if o, ok := info.ObjectOf(id).(*types.Var); ok && o.Parent() != o.Pkg().Scope() {
+									if _, isPtr := o.Type().Underlying().(*types.Pointer); !isPtr {
+										if _, isIf := o.Type().Underlying().(*types.Interface); !isIf {
+											c.boxed[o] = true
+										}
+									}
+								}
+							}
+						}
+					}
+				}
+			}
+		}
+		return true
+	})
 }
